@@ -14,6 +14,8 @@ import (
 	storetypes "cosmossdk.io/store/types"
 	codectypes "github.com/cosmos/cosmos-sdk/codec/types"
 	sdk "github.com/cosmos/cosmos-sdk/types"
+	"github.com/ethereum/go-ethereum/common"
+	"github.com/ethereum/go-ethereum/crypto"
 
 	"github.com/functionx/fx-core/v8/testutil/helpers"
 	fxtypes "github.com/functionx/fx-core/v8/types"
@@ -40,6 +42,9 @@ type Adapter struct {
 	recv     sdk.AccAddress
 	user     *helpers.Signer
 	storeKey storetypes.StoreKey
+	// reent[n-1]: for the LAST variant the event of nonce n is a bridge call INTO a contract that counts its
+	// invocations and re-enters executeClaim(chain, n) from inside its callback (ignoring the result)
+	reent []common.Address
 }
 
 func (a *Adapter) oracleKey(o string) *helpers.Signer  { return a.W.Key(a.Chain + "/oracle/" + o) }
@@ -106,6 +111,18 @@ func New(t *testing.T, chain string, oracles, bridgers, variants []string, maxNo
 	a.recv = w.Key(chain + "/receiver").AccAddress()
 	a.user = w.Key(chain + "/user")
 	w.Fund(ctx, a.user.AccAddress(), 100_000)
+	for n := 1; n <= maxNonce; n++ {
+		data, e := precompile.NewExecuteClaimMethod(nil).PackInput(types.ExecuteClaimArgs{Chain: chain, EventNonce: big.NewInt(int64(n))})
+		must(e)
+		nonce := w.App.EvmKeeper.GetNonce(ctx, a.user.Address())
+		_, e = w.App.EvmKeeper.CallEVMWithoutGas(ctx, a.user.Address(), nil, nil, initCode(reentrantRuntime(types.GetAddress(), data)), true)
+		must(e)
+		addr := crypto.CreateAddress(a.user.Address(), nonce)
+		if !w.App.EvmKeeper.IsContract(ctx, addr) {
+			panic("re-entrant receiver not deployed")
+		}
+		a.reent = append(a.reent, addr)
+	}
 	return a
 }
 
@@ -123,10 +140,60 @@ func (a *Adapter) amount(n int, v string) sdkmath.Int {
 	return sdkmath.NewIntFromBigInt(new(big.Int).Exp(big.NewInt(8), big.NewInt(int64(e)), nil))
 }
 
-func (a *Adapter) claim(b string, n int, v string) *types.MsgSendToFxClaim {
+func push2(v int) []byte { return []byte{0x61, byte(v >> 8), byte(v)} }
+
+// reentrantRuntime: slot0++ ; CALL(gas, target, 0, calldata) ; ignore the result ; STOP
+func reentrantRuntime(target common.Address, calldata []byte) []byte {
+	var c []byte
+	c = append(c, 0x60, 0x00, 0x54, 0x60, 0x01, 0x01, 0x60, 0x00, 0x55)
+	const dataOff = 9 + 9 + 36
+	c = append(c, push2(len(calldata))...)
+	c = append(c, push2(dataOff)...)
+	c = append(c, 0x60, 0x00, 0x39)
+	c = append(c, 0x60, 0x00, 0x60, 0x00)
+	c = append(c, push2(len(calldata))...)
+	c = append(c, 0x60, 0x00, 0x60, 0x00, 0x73)
+	c = append(c, target.Bytes()...)
+	c = append(c, 0x5a, 0xf1, 0x50, 0x00)
+	if len(c) != dataOff {
+		panic("assembler offset")
+	}
+	return append(c, calldata...)
+}
+
+func initCode(runtime []byte) []byte {
+	const hdr = 3 + 3 + 2 + 1 + 3 + 2 + 1
+	var c []byte
+	c = append(c, push2(len(runtime))...)
+	c = append(c, push2(hdr)...)
+	c = append(c, 0x60, 0x00, 0x39)
+	c = append(c, push2(len(runtime))...)
+	c = append(c, 0x60, 0x00, 0xf3)
+	return append(c, runtime...)
+}
+
+func (a *Adapter) extAddr(hexAddr string) string {
+	if a.Chain == "tron" {
+		return helpers.HexAddrToTronAddr(hexAddr)
+	}
+	return hexAddr
+}
+
+func (a *Adapter) isCallVariant(v string) bool {
+	return len(a.Variants) > 1 && v == a.Variants[len(a.Variants)-1]
+}
+
+func (a *Adapter) claim(b string, n int, v string) types.ExternalClaim {
 	sender := world.DetExt(a.Chain + "/extsender")
 	if a.Chain == "tron" {
 		sender = helpers.HexAddrToTronAddr(sender)
+	}
+	if a.isCallVariant(v) {
+		return &types.MsgBridgeCallClaim{
+			ChainName: a.Chain, BridgerAddress: a.bridgerKey(b).AccAddress().String(), EventNonce: uint64(n), BlockHeight: uint64(1000 + n),
+			Sender: sender, Refund: sender, To: a.extAddr(a.reent[n-1].Hex()), TokenContracts: nil, Amounts: nil,
+			Data: "01", Value: sdkmath.ZeroInt(), Memo: "", TxOrigin: sender,
+		}
 	}
 	return &types.MsgSendToFxClaim{
 		ChainName: a.Chain, BridgerAddress: a.bridgerKey(b).AccAddress().String(),
@@ -329,11 +396,16 @@ func (a *Adapter) Project(ctx sdk.Context) any {
 		must(e)
 		n := int(claim.GetEventNonce())
 		v := "?"
-		if c, ok := claim.(*types.MsgSendToFxClaim); ok {
+		switch c := claim.(type) {
+		case *types.MsgSendToFxClaim:
 			for _, x := range a.Variants {
-				if c.Amount.Equal(a.amount(n, x)) {
+				if !a.isCallVariant(x) && c.Amount.Equal(a.amount(n, x)) {
 					v = x
 				}
+			}
+		case *types.MsgBridgeCallClaim:
+			if n >= 1 && n <= a.MaxNonce && c.To == a.extAddr(a.reent[n-1].Hex()) {
+				v = a.Variants[len(a.Variants)-1]
 			}
 		}
 		if n < 1 || n > a.MaxNonce {
@@ -363,6 +435,14 @@ func (a *Adapter) Project(ctx sdk.Context) any {
 	}
 	if bal.Sign() != 0 {
 		effects[0][a.Variants[0]] += 1000 // value beyond every modelled deposit: something else paid the receiver
+	}
+	// the bridge-call variant: how often the receiving contract's callback ran
+	if len(a.Variants) > 1 {
+		cv := a.Variants[len(a.Variants)-1]
+		for n := 1; n <= a.MaxNonce; n++ {
+			cnt := a.W.App.EvmKeeper.GetState(ctx, a.reent[n-1], common.Hash{})
+			effects[n-1][cv] += new(big.Int).SetBytes(cnt.Bytes()).Int64()
+		}
 	}
 	return map[string]any{
 		"reg": reg, "online": online, "approved": approved, "power": power, "bridger": bridger, "bidx": bidx,
